@@ -304,6 +304,34 @@ def trinv2(T):
     Ti[2,2] = 1
     return Ti
 
+def trnorm2(T):
+    """
+    Normalize an SO(2) or SE(2) matrix
+
+    :param T: SO(2) or SE(2) matrix
+    :type T: ndarray(3,3) or ndarray(2,2)
+    :return: normalized SO(2) or SE(2) matrix
+    :rtype: ndarray(3,3) or ndarray(2,2)
+    :raises ValueError: bad arguments
+
+    The direction of the second (y) axis is kept and the first axis is made
+    perpendicular to it, both of unit length; the translation is unchanged.
+
+    :seealso: :func:`~spatialmath.base.transforms3d.trnorm`
+    """
+    if not ishom2(T) and not isrot2(T):
+        raise ValueError("expecting SO(2) or SE(2)")
+
+    y = T[:2, 1]
+    x = np.r_[y[1], -y[0]]  # y axis rotated by -90 degrees
+    R = np.stack((base.unitvec(x), base.unitvec(y)), axis=1)
+
+    if ishom2(T):
+        return base.rt2tr(R, T[:2, 2])
+    else:
+        return R
+
+
 def trlog2(T, check=True, twist=False):
     """
     Logarithm of SO(2) or SE(2) matrix
